@@ -111,6 +111,9 @@ type srcState struct {
 	doneAt  int
 	subs    map[string]*subState // reporter client -> what it has submitted
 	lastVal map[string]lastValue
+	// a watching inner source handed to the Blank: what its Watch was given
+	innerCtx context.Context
+	innerWA  dials.WatchArgs
 }
 
 type lastValue struct {
@@ -192,6 +195,7 @@ type Run struct {
 	clients           int
 	finished          int
 	maxQueue          int
+	ownCancels        []context.CancelFunc
 	probing           bool // the liveness probe is under way
 	stalls            []stall
 	verifyCalls       int
@@ -279,6 +283,17 @@ func (s *innerStatic) Value(ctx context.Context, t *dials.Type) (reflect.Value, 
 	v := buildValue(t.Type(), s.part, s.st.idx)
 	s.r.hand(s.st, v, "SetSource value")
 	return v, nil
+}
+
+// innerWatcher is an inner source that also watches: the Blank hands its slot
+// over to it. It reports nothing by itself; it remembers the context it was
+// started under, which is its lifetime.
+type innerWatcher struct{ innerStatic }
+
+func (s *innerWatcher) Watch(ctx context.Context, _ *dials.Type, wa dials.WatchArgs) error {
+	s.st.innerCtx, s.st.innerWA = ctx, wa
+	s.r.probe("blank-handed-its-slot-to-a-watcher")
+	return nil
 }
 
 func (r *Run) hand(st *srcState, v reflect.Value, what string) {
@@ -422,6 +437,12 @@ func (r *Run) opCtx(op *Op, rec *OpRec) (context.Context, context.CancelFunc) {
 	case op.Ctx == "deadline":
 		ctx, cancel = context.WithTimeout(base, time.Duration(op.D))
 		rec.Deadline = time.Now().Add(time.Duration(op.D))
+	case op.Ctx == "own":
+		// a context of the caller's own that outlives the Config context
+		var c context.CancelFunc
+		ctx, c = context.WithCancel(context.Background())
+		r.ownCancels = append(r.ownCancels, c)
+		cancel = func() {}
 	case op.Ctx == "expired":
 		ctx, cancel = context.WithCancel(base)
 		cancel()
@@ -579,7 +600,8 @@ func (r *Run) reporter(c *ClientSpec) {
 			ctx, cancel := r.opCtx(op, rec)
 			st.wa.Done(ctx)
 			r.end(rec, nil)
-			if ctx.Err() == nil {
+			if ctx.Err() == nil && st.innerWA == nil {
+				// (with a watching inner source in place Done is a no-op: the slot is that watcher's)
 				st.doneAt = r.sim.Step()
 			}
 			cancel()
@@ -849,7 +871,11 @@ func (r *Run) blankClient(c *ClientSpec) {
 			}
 			rec := r.begin(c, i, op)
 			ctx, cancel := r.opCtx(op, rec)
-			err := st.blank.SetSource(ctx, inner)
+			var src dials.Source = inner
+			if op.Str == "watch" {
+				src = &innerWatcher{*inner}
+			}
+			err := st.blank.SetSource(ctx, src)
 			r.end(rec, err)
 			cancel()
 			if err == nil {
@@ -864,7 +890,8 @@ func (r *Run) blankClient(c *ClientSpec) {
 			ctx, cancel := r.opCtx(op, rec)
 			st.blank.Done(ctx)
 			r.end(rec, nil)
-			if ctx.Err() == nil {
+			if ctx.Err() == nil && st.innerWA == nil {
+				// (with a watching inner source in place Done is a no-op: the slot is that watcher's)
 				st.doneAt = r.sim.Step()
 			}
 			cancel()
